@@ -273,7 +273,11 @@ var WatchdogTimeout = 60 * time.Second
 // blocked waiting for more, or has closed the connection. This is a logical
 // event, not a timeout. ok=false means the watchdog fired.
 func (c *Conn) Quiesce() (closed bool, ok bool) {
-	return c.waitFor(func() bool { return c.closed || (c.blocked && len(c.in) == 0) || c.failed })
+	return c.waitFor(func() bool {
+		// once the client has half-closed (or aborted) the server cannot block for
+		// input any more: the only quiescent state left is "closed"
+		return c.closed || c.failed || (c.blocked && len(c.in) == 0 && !c.inEOF && c.inErr == nil)
+	})
 }
 
 // WaitClosed waits for the server-side Close.
@@ -357,21 +361,21 @@ func (c *Conn) Stats() Stats {
 // ClientConn is the client's net.Conn over the same duplex.
 type ClientConn struct {
 	C   *Conn
-	pos int
+	Pos int // offset in the server output already consumed
 }
 
 func (cc *ClientConn) Read(p []byte) (int, error) {
 	c := cc.C
 	c.mu.Lock()
 	defer c.mu.Unlock()
-	for cc.pos >= len(c.out) {
+	for cc.Pos >= len(c.out) {
 		if c.closed || c.failed {
 			return 0, io.EOF
 		}
 		c.cond.Wait()
 	}
-	n := copy(p, c.out[cc.pos:])
-	cc.pos += n
+	n := copy(p, c.out[cc.Pos:])
+	cc.Pos += n
 	return n, nil
 }
 func (cc *ClientConn) Write(p []byte) (int, error) {
